@@ -1,19 +1,33 @@
 //! C03 — N-Triples / N-Quads serialisation round-trips every dataset exactly.
 //!
 //! requests (see lean/SophiaModel/Driver/C03.lean):
-//!   ds <nt|nq> <quad>*   serialise with the real NtSerializer / NqSerializer (`out=` hex, compared byte
+//!   ds <nt|nq>[:opt,..] <quad>*
+//!                        serialise with the real NtSerializer / NqSerializer (`out=` hex, compared byte
 //!                        for byte with the model), parse the output back with the real nt / nq / gnq
-//!                        parsers (`rt=`, `rt_gnq=`; the model says `o.rt=1` on the property's domain),
-//!                        line discipline (`lines=`, `nl_end=`), classification by the real validators
-//!                        (`valid=`, `bcp=`)
+//!                        parsers (`rt=`, `rt_gnq=`; `rt_buf=` through `parse_bufread` with a tiny buffer;
+//!                        `rt_pipe=` parser source piped into the serializer and parsed again; the model
+//!                        says `o.rt=1 …` on the property's domain), line discipline (`lines=`, `nl_end=`),
+//!                        classification by the real validators (`valid=`, `bcp=`).
+//!                        options: `ascii` (NtConfig::set_ascii(true)); entry point `coll`
+//!                        (serialize_graph / serialize_dataset on a Vec) or `set` (on a HashSet: output
+//!                        compared as a sorted set of lines); sink `short<k>` (io::Write taking <= k bytes
+//!                        per call), `bufw` (BufWriter), `fail<n>` (errors after n bytes: `out=err`)
+//!   rd <nt|nq>[:s] <hexdoc> <quad>*
+//!                        <hexdoc> = what the real serializer wrote for <quad>* (computed when the request
+//!                        is generated); the model's grammar reader must read exactly these quads from it
+//!   nat <kind> <hex> <term>
+//!                        write_term on a term of another type than SimpleTerm (native literal, NsTerm,
+//!                        Iri, BnodeId), <term> = that term seen through its accessors
 //!   p <nt|nq> <hexdoc>   the real parser on an arbitrary document: ok=0 | ok=1 n=<k> quads=<hex>
 //!   e <hex>              one lexical form through write_term and back through the N-Triples parser
 use sophia_api::quad::Spog;
 use sophia_api::serializer::{QuadSerializer, Stringifier, TripleSerializer};
 use sophia_api::source::{QuadSource, TripleSource};
-use sophia_api::term::{BnodeId, LanguageTag, SimpleTerm};
-use sophia_turtle::serializer::{nq::NqSerializer, nt::NtSerializer};
+use sophia_api::term::{BnodeId, LanguageTag, SimpleTerm, Term};
+use sophia_turtle::serializer::{nq::NqSerializer, nt::NtConfig, nt::NtSerializer};
+use std::collections::HashSet;
 use std::convert::Infallible;
+use std::io;
 use vhcore::rxgen;
 use vhcore::tgen::{self, TermGen};
 use vhcore::util::*;
@@ -386,13 +400,36 @@ pub fn generate(ctx: &mut GenCtx) {
         ctx.stats.bump("doc.corpus");
     }
 
+    // 1b. long lexical forms: a scan that works in blocks (16 / 64 bytes, 4 KiB, 8 KiB scratch buffers) must
+    // meet every escape class and multi-byte characters at every offset of a block boundary
+    for (i, s) in long_texts(ctx).into_iter().enumerate() {
+        ctx.stats.bump("esc.long");
+        ctx.stats.add("esc.long_bytes", s.len() as u64);
+        ctx.emit(&format!("e {}", hex(&s)));
+        if i % 3 == 0 {
+            let q = Q { s: T::Bnode("b".into()), p: T::Iri("x:p".into()), o: T::Lang(s, "en".into()), g: None };
+            emit_ds(ctx, Opts::plain(i % 2 == 0), std::slice::from_ref(&q), false);
+            ctx.stats.bump("ds.long_literal");
+        }
+    }
+
+    // 1c. terms of other types than SimpleTerm
+    gen_natives(ctx);
+
     // 2. datasets
     let rounds = if ctx.thorough { 3000 } else { 60 };
     for round in 0..rounds {
         let outside = round % 6 == 5;
-        let tg = build_termgen(ctx, outside);
+        let mut tg = build_termgen(ctx, outside);
+        if round % 4 == 3 {
+            tg.max_depth = 4;
+        }
         for k in 0..10 {
-            let n = ctx.rng.range(1, 4);
+            let n = match ctx.rng.below(12) {
+                0 => ctx.rng.range(20, 60),
+                1 => ctx.rng.range(6, 19),
+                _ => ctx.rng.range(1, 4),
+            };
             let nt = k % 3 == 2;
             let mut qs: Vec<Q> = (0..n).map(|_| tg.strict_quad(&mut ctx.rng)).collect();
             if nt {
@@ -400,8 +437,36 @@ pub fn generate(ctx: &mut GenCtx) {
                     q.g = None;
                 }
             }
-            // duplicates must be kept (nothing merged)
-            if ctx.rng.chance(1, 5) {
+            let mut o = Opts::plain(!nt);
+            match ctx.rng.below(10) {
+                0 | 1 => o.entry = Entry::Coll,
+                2 | 3 => o.entry = Entry::Set,
+                _ => {}
+            }
+            match ctx.rng.below(10) {
+                0 => o.sink = SinkKind::Short(ctx.rng.range(1, 3)),
+                1 => o.sink = SinkKind::BufW,
+                2 => o.sink = SinkKind::Fail(*ctx.rng.pick(&[0usize, 1, 2, 5, 17, 64, 200, 1000, 100000])),
+                _ => {}
+            }
+            if ctx.rng.chance(1, 12) {
+                o.ascii = true;
+            }
+            if o.entry == Entry::Set {
+                // a set container merges equal quads, and `SimpleTerm::eq` compares tags case-insensitively:
+                // keep one quad per class so that what the container holds is determined
+                let mut seen: Vec<Q> = vec![];
+                qs.retain(|q| {
+                    let c = canon_q(q);
+                    if seen.contains(&c) {
+                        false
+                    } else {
+                        seen.push(c);
+                        true
+                    }
+                });
+            } else if ctx.rng.chance(1, 5) {
+                // duplicates must be kept (nothing merged)
                 let d = qs[0].clone();
                 qs.push(d);
                 ctx.stats.bump("ds.duplicate_quad");
@@ -409,26 +474,195 @@ pub fn generate(ctx: &mut GenCtx) {
             for q in qs.iter() {
                 count_shapes(ctx, q);
             }
-            let mode = if nt { "nt" } else { "nq" };
             ctx.stats.bump(if outside { "ds.outside_domain" } else { "ds.in_domain" });
-            ctx.stats.bump(&format!("ds.{}", mode));
-            let line = format!("ds {} {}", mode, qs.iter().map(|q| q.render()).collect::<Vec<_>>().join(" "));
-            if round == 0 && k < 3 {
-                ctx.stats.sample(line.clone());
-            }
-            ctx.emit(&line);
-            // 3. reader differential on the real output and on single-edit mutants of it
+            ctx.stats.bump(match qs.len() {
+                0..=5 => "ds.size.1-5",
+                6..=19 => "ds.size.6-19",
+                _ => "ds.size.20-61",
+            });
+            emit_ds(ctx, o, &qs, round == 0 && k < 3);
+            // 3. reader differential on the real output and on single-edit mutants of it; the grammar
+            // reader on the real output against the quads it was produced from
             if !outside && k < 6 {
-                if let Ok(Ok(txt)) = catch(|| serialize(&qs, !nt)) {
-                    let txt = String::from_utf8(txt).unwrap();
-                    ctx.emit(&format!("p {} {}", mode, hex(&txt)));
-                    ctx.stats.bump("doc.serializer_output");
-                    for _ in 0..3 {
-                        let m = mutate(ctx, &txt);
-                        ctx.emit(&format!("p {} {}", mode, hex(&m)));
+                let plain = Opts { sink: SinkKind::Vec, ascii: false, ..o };
+                if let Ok(Ok(txt)) = catch(|| serialize_with(&qs, &plain)) {
+                    let Ok(txt) = String::from_utf8(txt) else { continue };
+                    let mode = if nt { "nt" } else { "nq" };
+                    emit_rd(ctx, &plain, &txt, &qs);
+                    if qs.len() <= 5 {
+                        ctx.emit(&format!("p {} {}", mode, hex(&txt)));
+                        ctx.stats.bump("doc.serializer_output");
+                        for _ in 0..3 {
+                            let m = mutate(ctx, &txt);
+                            ctx.emit(&format!("p {} {}", mode, hex(&m)));
+                        }
                     }
                 }
             }
+        }
+    }
+
+    // 4. one big document per entry point: nothing may depend on the number of statements
+    let big = if ctx.thorough { 10000 } else { 2000 };
+    let tg = build_termgen(ctx, false);
+    for (i, entry) in [Entry::Src, Entry::Coll, Entry::Set].into_iter().enumerate() {
+        let nq = i != 1;
+        let mut qs: Vec<Q> = (0..big)
+            .map(|j| {
+                let mut q = tg.strict_quad(&mut ctx.rng);
+                // distinct statements, so that a set container holds them all
+                q.s = T::Bnode(format!("n{}", j));
+                if !nq {
+                    q.g = None;
+                }
+                q
+            })
+            .collect();
+        if entry != Entry::Set {
+            let d = qs[big / 2].clone();
+            qs.push(d);
+        }
+        let o = Opts { entry, ..Opts::plain(nq) };
+        ctx.stats.bump("ds.size.big");
+        ctx.stats.add("ds.big_statements", qs.len() as u64);
+        emit_ds(ctx, o, &qs, false);
+        if let Ok(Ok(txt)) = catch(|| serialize_with(&qs, &o)) {
+            if let Ok(txt) = String::from_utf8(txt) {
+                emit_rd(ctx, &o, &txt, &qs);
+            }
+        }
+    }
+}
+
+fn emit_ds(ctx: &mut GenCtx, o: Opts, qs: &[Q], sample: bool) {
+    ctx.stats.bump(if o.nq { "ds.nq" } else { "ds.nt" });
+    ctx.stats.bump(match o.entry {
+        Entry::Src => "entry.source",
+        Entry::Coll => "entry.vec_container",
+        Entry::Set => "entry.hashset_container",
+    });
+    ctx.stats.bump(match o.sink {
+        SinkKind::Vec => "sink.stringifier",
+        SinkKind::Short(_) => "sink.short_writes",
+        SinkKind::BufW => "sink.bufwriter",
+        SinkKind::Fail(_) => "sink.failing",
+    });
+    if o.ascii {
+        ctx.stats.bump("ds.ascii_mode");
+    }
+    let line = format!("ds {} {}", o.render(), qs.iter().map(|q| q.render()).collect::<Vec<_>>().join(" "));
+    if sample {
+        ctx.stats.sample(line.clone());
+    }
+    ctx.emit(&line);
+}
+
+fn emit_rd(ctx: &mut GenCtx, o: &Opts, txt: &str, qs: &[Q]) {
+    let sorted = o.entry == Entry::Set;
+    ctx.stats.bump(if sorted { "rd.sorted" } else { "rd.ordered" });
+    ctx.emit(&format!(
+        "rd {}{} {} {}",
+        if o.nq { "nq" } else { "nt" },
+        if sorted { ":s" } else { "" },
+        hex(txt),
+        qs.iter().map(|q| q.render()).collect::<Vec<_>>().join(" ")
+    ));
+}
+
+/// texts of 4 KiB .. 64 KiB: every escape class and multi-byte characters, with paddings of every
+/// length 0..=16 in front, so that each of them meets each offset of a 16-byte block, and of a 4 KiB /
+/// 8 KiB / 64 KiB buffer boundary
+fn long_texts(ctx: &mut GenCtx) -> Vec<String> {
+    let mut v = vec![];
+    let units = ["\n", "\r", "\"", "\\", "\r\n", "\\\"", "é", "\u{20ac}", "\u{1F600}", "\t", "\u{0}", "\u{7f}", "a"];
+    // (1) each unit at each offset 0..=16 of a block, the block repeated
+    for pad in 0..=16usize {
+        let mut s = String::new();
+        let mut i = pad;
+        while s.len() < 4200 {
+            s.push_str(&"x".repeat(i % 17));
+            s.push_str(units[i % units.len()]);
+            i += 1;
+        }
+        v.push(s);
+    }
+    // (2) a unit exactly before / on / after the boundary of a buffer of 2^k bytes
+    for size in [64usize, 4096, 8192, 65536] {
+        for u in ["\n", "\"", "\\", "\r", "\u{1F600}", "é\n"] {
+            for delta in [0usize, 1, 2] {
+                let n = size + 1 - delta.min(size);
+                let mut s = "y".repeat(n.saturating_sub(u.len()));
+                s.push_str(u);
+                s.push_str("z\\");
+                s.push_str(u);
+                v.push(s);
+            }
+        }
+    }
+    // (3) dense: nothing but escapable characters, and random mixtures
+    v.push("\n".repeat(5000));
+    v.push("\\\"".repeat(3000));
+    v.push("\r\n".repeat(4099));
+    let classes = lex_classes();
+    for _ in 0..(if ctx.thorough { 40 } else { 6 }) {
+        let mut s = String::new();
+        let target = ctx.rng.range(3000, 70000);
+        while s.len() < target {
+            if ctx.rng.chance(1, 2) {
+                let n = ctx.rng.below(40);
+                s.push_str(&"w".repeat(n));
+            }
+            s.push_str(&ctx.rng.pick(&classes).1);
+        }
+        v.push(s);
+    }
+    v
+}
+
+/// terms of other types than SimpleTerm through `write_term`
+fn gen_natives(ctx: &mut GenCtx) {
+    let mut cases: Vec<(&'static str, String)> = vec![];
+    for s in ["", "a", "a\"b\\c\nd\re", "\n", "\\", "é\u{1F600}", "x\r"] {
+        cases.push(("str", s.to_string()));
+    }
+    for n in [0i64, 1, -1, 42, i32::MAX as i64, i32::MIN as i64] {
+        cases.push(("i32", n.to_string()));
+        cases.push(("isize", n.to_string()));
+        if n >= 0 {
+            cases.push(("usize", n.to_string()));
+        }
+    }
+    for x in [0.0f64, -0.0, 1.0, -1.5, 1e21, 1e-7, 0.1, f64::MAX, f64::MIN_POSITIVE, f64::INFINITY, f64::NEG_INFINITY, f64::NAN, 123456789.125] {
+        cases.push(("f64", format!("{:x}", x.to_bits())));
+    }
+    for _ in 0..10 {
+        cases.push(("f64", format!("{:x}", ctx.rng.next())));
+        cases.push(("i32", (ctx.rng.next() as i32).to_string()));
+    }
+    cases.push(("bool", "true".into()));
+    cases.push(("bool", "false".into()));
+    for i in IRIS {
+        cases.push(("iri", i.to_string()));
+        cases.push(("iriref", i.to_string()));
+    }
+    for l in ["b0", "x.y", "0", "a.1", "a\u{b7}", "a-", "é\u{10000}"] {
+        cases.push(("bnode", l.to_string()));
+    }
+    // NsTerm: namespace + suffix kept apart (the datatype of native literals is one of these too)
+    for (ns, sfx) in [
+        (tgen::XSD, "string"), (tgen::XSD, "integer"), (tgen::XSD, "substring"), (tgen::XSD, ""), (tgen::RDF, "type"),
+        (tgen::RDF, "langString"), ("http://ex.org/", "é\u{10000}"), ("x:", "a.b"), ("http://ex.org/a#", "b?c"),
+    ] {
+        cases.push(("ns", format!("{} {}", ns, sfx)));
+    }
+    for (kind, payload) in cases {
+        let mut line = None;
+        with_native(kind, &payload, &mut |_w, seen, _eq| {
+            line = Some(format!("nat {} {} {}", kind, hex(&payload), seen.render()));
+        });
+        if let Some(l) = line {
+            ctx.stats.bump(&format!("native.{}", kind));
+            ctx.emit(&l);
         }
     }
 }
@@ -437,18 +671,193 @@ pub fn generate(ctx: &mut GenCtx) {
 
 type SQ = Spog<SimpleTerm<'static>>;
 
-fn serialize(qs: &[Q], nq: bool) -> Result<Vec<u8>, String> {
-    let data: Vec<SQ> = qs.iter().map(tgen::q_to_simple).collect();
-    if nq {
-        let mut ser = NqSerializer::new_stringifier();
-        ser.serialize_quads(data.into_iter().map(Ok::<_, Infallible>))
-            .map_err(|e| e.to_string())?;
-        Ok(ser.as_utf8().to_vec())
-    } else {
-        let mut ser = NtSerializer::new_stringifier();
-        ser.serialize_triples(data.into_iter().map(|q| Ok::<_, Infallible>(q.0))).map_err(|e| e.to_string())?;
-        Ok(ser.as_utf8().to_vec())
+/// which public entry point of the serializer is fed
+#[derive(Clone, Copy, PartialEq, Debug)]
+enum Entry {
+    /// `serialize_triples` / `serialize_quads` on an iterator source
+    Src,
+    /// `serialize_graph(&Vec<[T;3]>)` / `serialize_dataset(&Vec<Spog<T>>)` (default methods of api/src/serializer.rs)
+    Coll,
+    /// `serialize_graph(&HashSet<[T;3]>)` / `serialize_dataset(&HashSet<Spog<T>>)`: a set container, arbitrary order
+    Set,
+}
+
+/// where the bytes go
+#[derive(Clone, Copy, PartialEq, Debug)]
+enum SinkKind {
+    /// `new_stringifier()` + `as_utf8()`
+    Vec,
+    /// an `io::Write` that takes at most k bytes per `write` call (legal; `write_all` must cope)
+    Short(usize),
+    /// `BufWriter` around such a sink
+    BufW,
+    /// an `io::Write` that fails once n bytes were taken: the serializer must report an error
+    Fail(usize),
+}
+
+#[derive(Clone, Copy, Debug)]
+struct Opts {
+    nq: bool,
+    ascii: bool,
+    entry: Entry,
+    sink: SinkKind,
+}
+
+impl Opts {
+    fn plain(nq: bool) -> Opts {
+        Opts { nq, ascii: false, entry: Entry::Src, sink: SinkKind::Vec }
     }
+    fn parse(tok: &str) -> Option<Opts> {
+        let (mode, rest) = match tok.split_once(':') {
+            Some((m, r)) => (m, r),
+            None => (tok, ""),
+        };
+        let mut o = Opts::plain(match mode {
+            "nq" => true,
+            "nt" => false,
+            _ => return None,
+        });
+        for x in rest.split(',').filter(|x| !x.is_empty()) {
+            match x {
+                "ascii" => o.ascii = true,
+                "src" => o.entry = Entry::Src,
+                "coll" => o.entry = Entry::Coll,
+                "set" => o.entry = Entry::Set,
+                "vec" => o.sink = SinkKind::Vec,
+                "bufw" => o.sink = SinkKind::BufW,
+                _ => {
+                    if let Some(k) = x.strip_prefix("short") {
+                        o.sink = SinkKind::Short(k.parse().ok().filter(|k| *k > 0)?);
+                    } else if let Some(n) = x.strip_prefix("fail") {
+                        o.sink = SinkKind::Fail(n.parse().ok()?);
+                    } else {
+                        return None;
+                    }
+                }
+            }
+        }
+        Some(o)
+    }
+    fn render(&self) -> String {
+        let mut v: Vec<String> = vec![];
+        if self.ascii {
+            v.push("ascii".into());
+        }
+        match self.entry {
+            Entry::Src => {}
+            Entry::Coll => v.push("coll".into()),
+            Entry::Set => v.push("set".into()),
+        }
+        match self.sink {
+            SinkKind::Vec => {}
+            SinkKind::BufW => v.push("bufw".into()),
+            SinkKind::Short(k) => v.push(format!("short{}", k)),
+            SinkKind::Fail(n) => v.push(format!("fail{}", n)),
+        }
+        let m = if self.nq { "nq" } else { "nt" };
+        if v.is_empty() { m.to_string() } else { format!("{}:{}", m, v.join(",")) }
+    }
+}
+
+struct Sink {
+    buf: Vec<u8>,
+    per_call: usize,
+    limit: Option<usize>,
+}
+impl io::Write for Sink {
+    fn write(&mut self, b: &[u8]) -> io::Result<usize> {
+        if b.is_empty() {
+            return Ok(0);
+        }
+        let mut n = b.len().min(self.per_call);
+        if let Some(l) = self.limit {
+            let room = l.saturating_sub(self.buf.len());
+            if room == 0 {
+                return Err(io::Error::new(io::ErrorKind::Other, "sink full"));
+            }
+            n = n.min(room);
+        }
+        self.buf.extend_from_slice(&b[..n]);
+        Ok(n)
+    }
+    fn flush(&mut self) -> io::Result<()> {
+        Ok(())
+    }
+}
+
+fn feed_nt<W: io::Write>(ser: &mut NtSerializer<W>, qs: &[Q], entry: Entry) -> Result<(), String> {
+    let data: Vec<[SimpleTerm<'static>; 3]> = qs.iter().map(|q| tgen::q_to_simple(q).0).collect();
+    match entry {
+        Entry::Src => ser.serialize_triples(data.into_iter().map(Ok::<_, Infallible>)).map(|_| ()).map_err(|e| e.to_string()),
+        Entry::Coll => ser.serialize_graph(&data).map(|_| ()).map_err(|e| e.to_string()),
+        Entry::Set => {
+            let set: HashSet<[SimpleTerm<'static>; 3]> = data.into_iter().collect();
+            ser.serialize_graph(&set).map(|_| ()).map_err(|e| e.to_string())
+        }
+    }
+}
+
+fn feed_nq<W: io::Write>(ser: &mut NqSerializer<W>, qs: &[Q], entry: Entry) -> Result<(), String> {
+    let data: Vec<SQ> = qs.iter().map(tgen::q_to_simple).collect();
+    match entry {
+        Entry::Src => ser.serialize_quads(data.into_iter().map(Ok::<_, Infallible>)).map(|_| ()).map_err(|e| e.to_string()),
+        Entry::Coll => ser.serialize_dataset(&data).map(|_| ()).map_err(|e| e.to_string()),
+        Entry::Set => {
+            let set: HashSet<SQ> = data.into_iter().collect();
+            ser.serialize_dataset(&set).map(|_| ()).map_err(|e| e.to_string())
+        }
+    }
+}
+
+fn feed<W: io::Write>(w: W, qs: &[Q], o: &Opts) -> Result<(), String> {
+    let mut cfg = NtConfig::default();
+    cfg.set_ascii(o.ascii);
+    if o.nq {
+        feed_nq(&mut NqSerializer::new_with_config(w, cfg), qs, o.entry)
+    } else {
+        feed_nt(&mut NtSerializer::new_with_config(w, cfg), qs, o.entry)
+    }
+}
+
+fn serialize_with(qs: &[Q], o: &Opts) -> Result<Vec<u8>, String> {
+    match o.sink {
+        SinkKind::Vec => {
+            let mut cfg = NtConfig::default();
+            cfg.set_ascii(o.ascii);
+            if o.nq {
+                let mut ser = NqSerializer::new_stringifier_with_config(cfg);
+                feed_nq(&mut ser, qs, o.entry)?;
+                Ok(ser.as_utf8().to_vec())
+            } else {
+                let mut ser = NtSerializer::new_stringifier_with_config(cfg);
+                feed_nt(&mut ser, qs, o.entry)?;
+                Ok(ser.as_utf8().to_vec())
+            }
+        }
+        SinkKind::Short(k) => {
+            let mut sink = Sink { buf: vec![], per_call: k, limit: None };
+            feed(&mut sink, qs, o)?;
+            Ok(sink.buf)
+        }
+        SinkKind::BufW => {
+            let mut sink = Sink { buf: vec![], per_call: 5, limit: None };
+            {
+                let mut bw = io::BufWriter::with_capacity(7, &mut sink);
+                feed(&mut bw, qs, o)?;
+                io::Write::flush(&mut bw).map_err(|e| e.to_string())?;
+            }
+            Ok(sink.buf)
+        }
+        SinkKind::Fail(n) => {
+            let mut sink = Sink { buf: vec![], per_call: 4, limit: Some(n) };
+            feed(&mut sink, qs, o)?;
+            Ok(sink.buf)
+        }
+    }
+}
+
+fn serialize(qs: &[Q], nq: bool) -> Result<Vec<u8>, String> {
+    serialize_with(qs, &Opts::plain(nq))
 }
 
 fn parse(txt: &str, which: &str) -> Result<Vec<Q>, String> {
@@ -465,6 +874,37 @@ fn parse(txt: &str, which: &str) -> Result<Vec<Q>, String> {
             .map_err(|e| e.to_string())?,
     }
     Ok(out)
+}
+
+/// the other entry point of the parser glue: `parse_bufread` on a reader with a tiny buffer (every
+/// token straddles a refill)
+fn parse_buf(txt: &str, nq: bool, cap: usize) -> Result<Vec<Q>, String> {
+    let mut out: Vec<Q> = vec![];
+    let rd = io::BufReader::with_capacity(cap, txt.as_bytes());
+    if nq {
+        sophia_turtle::parser::nq::parse_bufread(rd)
+            .for_each_quad(|q| out.push(tgen::view_quad(q)))
+            .map_err(|e| e.to_string())?
+    } else {
+        sophia_turtle::parser::nt::parse_bufread(rd)
+            .for_each_triple(|t| out.push(tgen::view_triple(t)))
+            .map_err(|e| e.to_string())?
+    }
+    Ok(out)
+}
+
+/// parser source piped straight into the serializer: the terms the serializer sees are Rio's,
+/// wrapped as `Trusted<…>` (rio/src/model.rs), not `SimpleTerm`s
+fn pipe(txt: &str, nq: bool) -> Result<Vec<u8>, String> {
+    if nq {
+        let mut ser = NqSerializer::new_stringifier();
+        ser.serialize_quads(sophia_turtle::parser::nq::parse_str(txt)).map_err(|e| e.to_string())?;
+        Ok(ser.as_utf8().to_vec())
+    } else {
+        let mut ser = NtSerializer::new_stringifier();
+        ser.serialize_triples(sophia_turtle::parser::nt::parse_str(txt)).map_err(|e| e.to_string())?;
+        Ok(ser.as_utf8().to_vec())
+    }
 }
 
 /// language tags compare case-insensitively (`LanguageTag::eq`); Rio lower-cases what it reads
@@ -526,16 +966,184 @@ fn render_quads(qs: &[Q]) -> String {
     qs.iter().map(|q| canon_q(q).render()).collect::<Vec<_>>().join(";")
 }
 
-fn roundtrip(txt: &str, which: &'static str, want: &[Q]) -> (String, bool) {
-    let t = txt.to_string();
-    match catch(move || parse(&t, which)) {
+/// rendering with the tags as they are; `sorted` for set containers (order is not part of a dataset)
+fn render_exact(qs: &[Q], sorted: bool) -> String {
+    let mut v: Vec<String> = qs.iter().map(|q| q.render()).collect();
+    if sorted {
+        v.sort();
+    }
+    v.join(";")
+}
+
+/// `got` against `want`: as lists, or as multisets when the source was a set container
+fn same_quads(got: &[Q], want: &[Q], unordered: bool) -> (bool, bool) {
+    if unordered {
+        let key = |qs: &[Q], canon: bool| {
+            let mut v: Vec<String> = qs.iter().map(|q| if canon { canon_q(q).render() } else { q.render() }).collect();
+            v.sort();
+            v
+        };
+        (key(got, true) == key(want, true), key(got, false) == key(want, false))
+    } else {
+        let canon_eq = got.len() == want.len() && got.iter().zip(want).all(|(a, b)| canon_q(a) == canon_q(b));
+        (canon_eq, got == want)
+    }
+}
+
+fn verdict(r: Result<Result<Vec<Q>, String>, String>, want: &[Q], unordered: bool) -> (String, bool) {
+    match r {
         Err(_) => ("panic".into(), false),
         Ok(Err(_)) => ("0".into(), false),
         Ok(Ok(got)) => {
-            let canon_eq = got.len() == want.len() && got.iter().zip(want).all(|(a, b)| canon_q(a) == canon_q(b));
-            let exact = got.as_slice() == want;
-            (b(canon_eq).into(), exact)
+            let (c, e) = same_quads(&got, want, unordered);
+            (b(c).into(), e)
         }
+    }
+}
+
+fn roundtrip(txt: &str, which: &'static str, want: &[Q], unordered: bool) -> (String, bool) {
+    let t = txt.to_string();
+    verdict(catch(move || parse(&t, which)), want, unordered)
+}
+
+/// set containers: the quads they hold (exact duplicates collapse; the generator never emits two
+/// quads that differ by tag case only, which `SimpleTerm::eq` would merge)
+fn dedup(qs: &[Q]) -> Vec<Q> {
+    let mut out: Vec<Q> = vec![];
+    for q in qs {
+        if !out.contains(q) {
+            out.push(q.clone());
+        }
+    }
+    out
+}
+
+fn sorted_lines(out: &[u8]) -> Vec<u8> {
+    let mut lines: Vec<&[u8]> = out.split_inclusive(|c| *c == b'\n').collect();
+    lines.sort();
+    lines.concat()
+}
+
+fn exec_ds(o: Opts, qs: Vec<Q>) -> String {
+    let nq = o.nq;
+    let unordered = o.entry == Entry::Set;
+    let want: Vec<Q> = if unordered { dedup(&qs) } else { qs.clone() };
+    let valid = qs.iter().all(|q| quad_all(q, term_valid) && strict(q));
+    let bcp = qs.iter().all(|q| quad_all(q, term_bcp));
+    let qs2 = qs.clone();
+    let out = match catch(move || serialize_with(&qs2, &o)) {
+        // the oracle fields are present so that a panic / an error on a dataset of the property's
+        // domain is a failing input, not only a difference with the model
+        Err(_) => return format!("out=panic valid={} bcp={} lines=panic nl_end=panic rt=panic rt_gnq=panic rt_buf=panic rt_pipe=panic", b(valid), b(bcp)),
+        Ok(Err(_)) => return format!("out=err valid={} bcp={} lines=err nl_end=err rt=err rt_gnq=err rt_buf=err rt_pipe=err", b(valid), b(bcp)),
+        Ok(Ok(x)) => x,
+    };
+    let lines = out.iter().filter(|c| **c == b'\n').count();
+    let nl_end = out.is_empty() || out.ends_with(b"\n");
+    let shown = if unordered { sorted_lines(&out) } else { out.clone() };
+    let txt = match String::from_utf8(out.clone()) {
+        Ok(t) => t,
+        Err(_) => return format!("out={} FAIL.utf8=1", hex_bytes(&shown)),
+    };
+    let which = if nq { "nq" } else { "nt" };
+    let (rt, exact) = roundtrip(&txt, which, &want, unordered);
+    let (rt_gnq, _) = roundtrip(&txt, "gnq", &want, unordered);
+    // parse_bufread with a buffer of a few bytes
+    let cap = 1 + (txt.len() % 7);
+    let t2 = txt.clone();
+    let (rt_buf, _) = verdict(catch(move || parse_buf(&t2, nq, cap)), &want, unordered);
+    // parser -> serializer -> parser, the serializer reading Rio's terms
+    let t3 = txt.clone();
+    let rt_pipe = match catch(move || pipe(&t3, nq)) {
+        Err(_) => "panic".to_string(),
+        Ok(Err(_)) => "0".to_string(),
+        Ok(Ok(bytes)) => match String::from_utf8(bytes) {
+            Err(_) => "utf8".to_string(),
+            Ok(t) => roundtrip(&t, which, &want, unordered).0,
+        },
+    };
+    let mut r = format!(
+        "out={} valid={} bcp={} lines={} nl_end={} rt={} rt_gnq={} rt_buf={} rt_pipe={} exact={}",
+        hex_bytes(&shown), b(valid), b(bcp), lines, b(nl_end), rt, rt_gnq, rt_buf, rt_pipe, b(exact)
+    );
+    if o.ascii {
+        r.push_str(&format!(" ascii_only={}", b(out.is_ascii())));
+    }
+    // one statement per line: every line of the output is a complete statement of its own
+    if valid && bcp && !unordered {
+        let per_line_ok = txt.split_inclusive('\n').zip(want.iter()).all(|(l, q)| {
+            let (r1, _) = roundtrip(l, which, std::slice::from_ref(q), false);
+            r1 == "1"
+        });
+        if !per_line_ok || txt.split_inclusive('\n').count() != want.len() {
+            r.push_str(" FAIL.per_line=1");
+        }
+    }
+    r
+}
+
+/// terms of other types than `SimpleTerm` (native literals, `NsTerm`, `Iri`, `BnodeId`, borrowed terms)
+fn with_native<R>(kind: &str, payload: &str, f: &mut dyn FnMut(&dyn Fn(&mut Vec<u8>) -> io::Result<()>, T, &dyn Fn(&SimpleTerm) -> bool) -> R) -> Option<R> {
+    macro_rules! go {
+        ($t:expr) => {{
+            let t = $t;
+            Some(f(&|w| sophia_turtle::serializer::nt::write_term(w, t.borrow_term()), tgen::view(t.borrow_term()), &|x| Term::eq(&t, x)))
+        }};
+    }
+    match kind {
+        "str" => go!(payload),
+        "i32" => go!(payload.parse::<i32>().ok()?),
+        "isize" => go!(payload.parse::<isize>().ok()?),
+        "usize" => go!(payload.parse::<usize>().ok()?),
+        "f64" => go!(f64::from_bits(u64::from_str_radix(payload, 16).ok()?)),
+        "bool" => go!(payload == "true"),
+        "iri" => go!(sophia_iri::Iri::new_unchecked(payload)),
+        "iriref" => go!(sophia_iri::IriRef::new_unchecked(payload)),
+        "bnode" => go!(BnodeId::new_unchecked(payload)),
+        "ns" => {
+            let (ns, suffix) = payload.split_once(' ')?;
+            let ns = sophia_api::ns::Namespace::new_unchecked(ns);
+            go!(ns.get_unchecked(suffix))
+        }
+        _ => None,
+    }
+}
+
+fn exec_nat(kind: &str, payload: &str) -> String {
+    let r = catch({
+        let kind = kind.to_string();
+        let payload = payload.to_string();
+        move || {
+            with_native(&kind, &payload, &mut |write, seen, eq| {
+                let mut buf: Vec<u8> = vec![];
+                if write(&mut buf).is_err() {
+                    return "out=err rt=err".to_string();
+                }
+                let mut doc = b"<x:s> <x:p> ".to_vec();
+                doc.extend_from_slice(&buf);
+                doc.extend_from_slice(b" .\n");
+                let rt = match String::from_utf8(doc) {
+                    Err(_) => "utf8",
+                    Ok(d) => {
+                        let mut back: Vec<SimpleTerm<'static>> = vec![];
+                        match sophia_turtle::parser::nt::parse_str(&d).for_each_triple(|t| {
+                            use sophia_api::triple::Triple;
+                            back.push(t.o().into_term())
+                        }) {
+                            Err(_) => "0",
+                            Ok(_) if back.len() != 1 => "count",
+                            Ok(_) => b(eq(&back[0])),
+                        }
+                    }
+                };
+                format!("out={} seen={} rt={}", hex_bytes(&buf), hex(&seen.render()), rt)
+            })
+        }
+    });
+    match r {
+        Err(_) => "out=panic rt=panic".into(),
+        Ok(None) => "bad-op".into(),
+        Ok(Some(s)) => s,
     }
 }
 
@@ -543,7 +1151,7 @@ pub fn exec(line: &str) -> String {
     let f: Vec<&str> = line.split_whitespace().collect();
     match f.as_slice() {
         ["ds", mode, rest @ ..] => {
-            let nq = *mode == "nq";
+            let Some(o) = Opts::parse(mode) else { return "bad-op".into() };
             let mut it = rest.iter().copied().peekable();
             let mut qs: Vec<Q> = vec![];
             while it.peek().is_some() {
@@ -552,40 +1160,28 @@ pub fn exec(line: &str) -> String {
                     None => return "bad-op".into(),
                 }
             }
-            if !nq && qs.iter().any(|q| q.g.is_some()) {
+            if !o.nq && qs.iter().any(|q| q.g.is_some()) {
                 return "bad-op".into();
             }
-            let valid = qs.iter().all(|q| quad_all(q, term_valid) && strict(q));
-            let bcp = qs.iter().all(|q| quad_all(q, term_bcp));
-            let qs2 = qs.clone();
-            let out = match catch(move || serialize(&qs2, nq)) {
-                Err(_) => return "out=panic".into(),
-                Ok(Err(e)) => return format!("out=err:{}", hex(&e)),
-                Ok(Ok(o)) => o,
-            };
-            let lines = out.iter().filter(|c| **c == b'\n').count();
-            let nl_end = out.is_empty() || out.ends_with(b"\n");
-            let txt = match String::from_utf8(out.clone()) {
-                Ok(t) => t,
-                Err(_) => return format!("out={} FAIL.utf8=1", hex_bytes(&out)),
-            };
-            let (rt, exact) = roundtrip(&txt, if nq { "nq" } else { "nt" }, &qs);
-            let (rt_gnq, _) = roundtrip(&txt, "gnq", &qs);
-            let mut r = format!(
-                "out={} valid={} bcp={} lines={} nl_end={} rt={} rt_gnq={} exact={}",
-                hex_bytes(&out), b(valid), b(bcp), lines, b(nl_end), rt, rt_gnq, b(exact)
-            );
-            // one statement per line: every line of the output is a complete statement of its own
-            if valid && bcp {
-                let per_line_ok = txt.split_inclusive('\n').zip(qs.iter()).all(|(l, q)| {
-                    let (r1, _) = roundtrip(l, if nq { "nq" } else { "nt" }, std::slice::from_ref(q));
-                    r1 == "1"
-                });
-                if !per_line_ok || txt.split_inclusive('\n').count() != qs.len() {
-                    r.push_str(" FAIL.per_line=1");
+            exec_ds(o, qs)
+        }
+        ["rd", mode, _h, rest @ ..] => {
+            // the independent reader (model side) on bytes the real serializer produced: this side only
+            // says what they were produced from
+            let sorted = mode.ends_with(":s");
+            let mut it = rest.iter().copied().peekable();
+            let mut qs: Vec<Q> = vec![];
+            while it.peek().is_some() {
+                match Q::parse(&mut it) {
+                    Some(q) => qs.push(q),
+                    None => return "bad-op".into(),
                 }
             }
-            r
+            format!("reads={}", hex(&render_exact(&qs, sorted)))
+        }
+        ["nat", kind, h, ..] => {
+            let Some(payload) = unhex(h) else { return "bad-hex".into() };
+            exec_nat(kind, &payload)
         }
         ["p", mode, h] => {
             let Some(doc) = unhex(h) else { return "bad-hex".into() };
@@ -600,19 +1196,20 @@ pub fn exec(line: &str) -> String {
             let Some(s) = unhex(h) else { return "bad-hex".into() };
             let lit: SimpleTerm<'static> =
                 tgen::to_simple(&T::Lit(s.clone(), "http://www.w3.org/2001/XMLSchema#string".into()));
-            let mut buf: Vec<u8> = vec![];
+            let buf: Vec<u8>;
             let l2 = lit.clone();
             let w = catch(move || {
                 let mut buf: Vec<u8> = vec![];
                 sophia_turtle::serializer::nt::write_term(&mut buf, &l2).map(|_| buf)
             });
             match w {
-                Err(_) => return "q=panic".into(),
-                Ok(Err(_)) => return "q=err".into(),
+                // `back` is present so that the oracle (`o.back`) sees the failure
+                Err(_) => return "q=panic back=panic".into(),
+                Ok(Err(_)) => return "q=err back=err".into(),
                 Ok(Ok(x)) => buf = x,
             }
             if buf.len() < 2 || buf[0] != b'"' || buf[buf.len() - 1] != b'"' {
-                return format!("q=unquoted:{}", hex_bytes(&buf));
+                return format!("q=unquoted:{} back=unquoted", hex_bytes(&buf));
             }
             let inner = &buf[1..buf.len() - 1];
             let mut doc = b"<x:s> <x:p> ".to_vec();
